@@ -24,6 +24,8 @@ PROPS = {
     "C08": dict(mc_q=["MC_plan_q"], mc_t=["MC_plan"], wit=[("MC_plan_q", "W_TaskFired"), ("MC_plan_q", "W_Origin0Ahead")]),
     "C09": dict(mc_q=["MC_plan_q"], mc_t=["MC_plan"], wit=[("MC_plan_q", "W_PlanFailed"), ("MC_plan_q", "W_PlanSucceeded")]),
     "C10": dict(mc_q=["MC_plan_q"], mc_t=["MC_plan"], wit=[("MC_plan_q", "W_PlanFull")]),
+    "C13": dict(mc_q=[], mc_t=[], wit=[], pool=False),
+    "C20": dict(mc_q=[], mc_t=[], wit=[], pool=False),
     "C11": dict(mc_q=["MC_guards_q", "MC_serial"], mc_t=["MC_guards", "MC_serial"], wit=[("MC_serial", "W_Replayed")]),
     "C12": dict(mc_q=["MC_serial"], mc_t=["MC_serial"], wit=[("MC_serial", "W_LoadDeactivates")]),
     "C14": dict(mc_q=["MC_guards_q"], mc_t=["MC_guards"], wit=[]),
@@ -163,8 +165,11 @@ def check(prop, tier, seed):
         if not w["reached"]:
             infra.append("vacuity: witness %s not reachable in %s" % (inv, cfgname))
     # 2. the implementation: pool of profiles x scenarios, conformance + monitors
-    pres = pool.run_pool(tier, seed)
-    vlib.log("POOL key=%s %s wall=%ss" % (pres["key"], "(cached)" if pres.get("cached") else "", pres.get("wall_s")))
+    if spec.get("pool", True):
+        pres = pool.run_pool(tier, seed)
+        vlib.log("POOL key=%s %s wall=%ss" % (pres["key"], "(cached)" if pres.get("cached") else "", pres.get("wall_s")))
+    else:
+        pres = {"profiles": {}, "cached": False}
     findings, drift, nexec, nevents, accepted_exec = [], [], 0, 0, 0
     sample = None
     for pname, pr in pres["profiles"].items():
@@ -229,7 +234,7 @@ def check(prop, tier, seed):
         "implementation_executions": nexec, "implementation_events": nevents,
         "profiles": sorted(pres["profiles"].keys()),
         "conformance_drift": drift[:20],
-        "monitor": "Monitors.tla checks tagged " + prop,
+        "monitor": ("Monitors.tla checks tagged " + prop) if spec.get("pool", True) else "CompTrace.tla",
         "pool_fresh_run": not pres.get("cached", False),
     }
     cov.update(extra_cov)
@@ -253,10 +258,11 @@ COMMON_ASSUME = [
 ]
 ASSUME = {}
 LEVEL = {}
-EXTRA = {}
+import components  # noqa: E402
+EXTRA = {"C10": components.extra_c10, "C13": components.extra_c13, "C20": components.extra_c20}
 
 # properties whose property-specific machinery is not finished yet (not claimed in MANIFEST.json)
-NOT_YET = {"C10", "C14", "C17"}
+NOT_YET = {"C14", "C17"}
 NA_REASON = {
     "C18": "absence of undefined behaviour and of heap allocation is a property of the C++ abstract machine (bounds, alignment, indeterminate reads), not of any state a TLA+ specification can describe; deciding it needs sanitizers / static analysis, i.e. a different technique (DESIGN.md section 8)",
 }
